@@ -50,7 +50,7 @@ def expanded_source(repo, workdir):
     return dst
 
 
-def run_unit(unit, repo="/repo", workdir=None, canary=False, variant=None, keep=False):
+def run_unit(unit, repo="/repo", workdir=None, canary=False, variant=None, keep=False, expanded=None):
     t0 = time.time()
     tmpl = os.path.join(ROOT, "specs", unit + ".vrs")
     workdir = workdir or os.path.join(ROOT, "build")
@@ -58,9 +58,9 @@ def run_unit(unit, repo="/repo", workdir=None, canary=False, variant=None, keep=
     out_rs = os.path.join(workdir, unit.replace("-", "_") + ("__" + variant.replace("-", "_") if variant else "") + ".rs")
     res = dict(unit=unit, variant=variant, status="inconclusive", functions={}, failures=[], items=[], reason="", wall_s=0.0,
                verified=0, errors=0, smt_ms=0)
-    needs_expanded = "EXPANDED" in open(tmpl).read()
+    needs_expanded = "EXPANDED" in extract.expand_includes(open(tmpl).read(), ROOT)
     try:
-        exp = expanded_source(repo, workdir) if needs_expanded else None
+        exp = (expanded or expanded_source(repo, workdir)) if needs_expanded else None
         res["items"] = extract.build(tmpl, repo, out_rs, exp, variant)
     except extract.LostAnchor as e:
         res["reason"] = "lost-anchor: " + str(e)
